@@ -419,13 +419,17 @@ func runOnce(e *env, tr string, conn grpc.ClientConnInterface, c Case, rng *rand
 		close(cl.abort)
 	}
 	cancel()
+	endTimeout := stepTimeout
+	if aborted {
+		endTimeout = time.Second // something already hung: do not spend more time on this script than needed
+	}
 	if pend != nil {
 		select {
 		case r := <-pend:
 			if !early && !aborted {
 				logf(0, "c", r.op, "left pending by the script: %v", r.err)
 			}
-		case <-expired(stepTimeout):
+		case <-expired(endTimeout):
 			select {
 			case <-pend:
 			default:
@@ -438,7 +442,7 @@ func runOnce(e *env, tr string, conn grpc.ClientConnInterface, c Case, rng *rand
 	case <-cl.entered:
 		select {
 		case <-cl.exited:
-		case <-expired(stepTimeout):
+		case <-expired(endTimeout):
 			select {
 			case <-cl.exited:
 			default:
